@@ -144,7 +144,7 @@ fn witness(c: &Case, kind: &str, detail: &str) -> String {
 #[derive(Clone, Copy, PartialEq, Debug)]
 pub enum Which { C01, C02, C03, C04, C05, C11 }
 
-pub struct Search { which: Which, tier: Tier, seed: u64, feat: Feat, shapes: Shapes, n_shapes: u64, n_rand: u64, shape_stride: u64, cutfam: Option<CutFamily>, n_cutfam: u64, notfam: Option<NotFamily>, n_notfam: u64 }
+pub struct Search { which: Which, tier: Tier, seed: u64, feat: Feat, shapes: Shapes, n_shapes: u64, n_rand: u64, shape_stride: u64, cutfam: Option<CutFamily>, n_cutfam: u64, notfam: Option<NotFamily>, n_notfam: u64, repfam: Option<RepeatFamily>, n_repfam: u64 }
 
 impl Search {
     pub fn new(which: Which, tier: Tier, seed: u64) -> Search {
@@ -182,7 +182,9 @@ impl Search {
         let n_cutfam = cutfam.as_ref().map_or(0, |f| f.total());
         let notfam = match which { Which::C03 | Which::C05 | Which::C11 => Some(NotFamily::new()), _ => None };
         let n_notfam = notfam.as_ref().map_or(0, |f| f.total());
-        Search { which, tier, seed, feat, shapes, n_shapes, n_rand, shape_stride: stride, cutfam, n_cutfam, notfam, n_notfam }
+        let repfam = match which { Which::C01 | Which::C05 | Which::C11 => Some(RepeatFamily::new(false)), Which::C04 => Some(RepeatFamily::new(true)), _ => None };
+        let n_repfam = repfam.as_ref().map_or(0, |f| f.total());
+        Search { which, tier, seed, feat, shapes, n_shapes, n_rand, shape_stride: stride, cutfam, n_cutfam, notfam, n_notfam, repfam, n_repfam }
     }
 
     fn pick(&self, idx: u64) -> Case {
@@ -193,8 +195,10 @@ impl Search {
             self.cutfam.as_ref().unwrap().get(idx - self.n_shapes)
         } else if idx < self.n_shapes + self.n_cutfam + self.n_notfam {
             self.notfam.as_ref().unwrap().get(idx - self.n_shapes - self.n_cutfam)
+        } else if idx < self.n_shapes + self.n_cutfam + self.n_notfam + self.n_repfam {
+            self.repfam.as_ref().unwrap().get(idx - self.n_shapes - self.n_cutfam - self.n_notfam)
         } else {
-            random_case(self.seed, 100 + self.which as u64, idx - self.n_shapes - self.n_cutfam - self.n_notfam, self.feat)
+            random_case(self.seed, 100 + self.which as u64, idx - self.n_shapes - self.n_cutfam - self.n_notfam - self.n_repfam, self.feat)
         }
     }
 
@@ -249,11 +253,12 @@ fn solve_all_check(c: &Case, kb: &KnowledgeBase, refr: &RefResult, eng: &EngineR
 }
 
 impl Workload for Search {
-    fn total(&self) -> u64 { self.n_shapes + self.n_cutfam + self.n_notfam + self.n_rand }
+    fn total(&self) -> u64 { self.n_shapes + self.n_cutfam + self.n_notfam + self.n_repfam + self.n_rand }
     fn describe(&mut self, idx: u64) -> String { case_json(&self.pick(idx)) }
     fn exhaustive_part(&self) -> Option<String> {
         let mut cf = if self.n_cutfam > 0 { format!(" and all {} programs of the cut-focused family", self.n_cutfam) } else { String::new() };
         if self.n_notfam > 0 { cf.push_str(&format!(" and all {} programs of the not-focused family", self.n_notfam)); }
+        if self.n_repfam > 0 { cf.push_str(&format!(" and all {} programs of the repetition family", self.n_repfam)); }
         if self.shape_stride == 1 { Some(format!("all {} small program shapes over p/1, q/1 (bodies of <= 3 goals, every and/or arrangement) x 5 queries{}", self.n_shapes, cf)) } else if !cf.is_empty() { Some(cf.trim_start_matches(" and ").to_string()) } else { None }
     }
     fn rule(&self) -> String {
@@ -265,8 +270,8 @@ impl Workload for Search {
             Which::C05 => "the query had >= 1 answer or its program contains not/print/cut",
             Which::C11 => "the program has >= 2 clauses with variables",
         };
-        format!("{} small program shapes ({}), then {} programs of the cut-focused family (complete enumeration of: multi-solution goal of 12 node shapes to the left of the cut x optional earlier generator x cut plain / closing a parenthesised group / inside a second alternative x 8 goals after the cut that reject the first solutions x 3 sets of later clauses x 4 queries incl. callers that backtrack into the call{}), then {} programs of the not-focused family (complete enumeration of: 5 goals before the not x 27 goals G over ground, non-ground (`$_`, repeated variable, list pattern) and numerically look-alike facts, conjunctions, disjunctions, nested not, unification, comparison x the not executed once or twice x 4 goals after it x 4 queries), then {} seeded random stratified programs (list patterns, aliasing, nested and/or, recursion templates, arithmetic, comparisons, list built-ins); cases whose reference run leaves the statements' domain or exceeds 20000 steps are discarded before the engine is called; non-trivial when {}; distinct by name-canonical program+query text",
-                self.n_shapes, if self.shape_stride == 1 { "complete enumeration" } else { "strided sample of the enumeration" }, self.n_cutfam, if self.which == Which::C04 { " x print before / after the cut" } else { "" }, self.n_notfam, self.n_rand, nt)
+        format!("{} small program shapes ({}), then {} programs of the cut-focused family (complete enumeration of: multi-solution goal of 12 node shapes to the left of the cut x optional earlier generator x cut plain / closing a parenthesised group / inside a second alternative x 8 goals after the cut that reject the first solutions x 3 sets of later clauses x 4 queries incl. callers that backtrack into the call{}), then {} programs of the not-focused family (complete enumeration of: 5 goals before the not x 27 goals G over ground, non-ground (`$_`, repeated variable, list pattern) and numerically look-alike facts, conjunctions, disjunctions, nested not, unification, comparison x the not executed once or twice x 4 goals after it x 4 queries), then {} programs of the repetition family (complete enumeration of: every ordered pair of 8 goals that succeed 1-3 times, six of them without binding anything, x 4 goals after them incl. failure-driven loops x 3 sets of later clauses x 2 queries{}), then {} seeded random stratified programs (list patterns, aliasing, nested and/or, recursion templates, arithmetic, comparisons, list built-ins); cases whose reference run leaves the statements' domain or exceeds 20000 steps are discarded before the engine is called; non-trivial when {}; distinct by name-canonical program+query text",
+                self.n_shapes, if self.shape_stride == 1 { "complete enumeration" } else { "strided sample of the enumeration" }, self.n_cutfam, if self.which == Which::C04 { " x print before / after the cut" } else { "" }, self.n_notfam, self.n_repfam, if self.which == Which::C04 { " x print after the first / second / both" } else { "" }, self.n_rand, nt)
     }
 
     fn run(&mut self, idx: u64) -> Outcome {
